@@ -315,6 +315,8 @@ class Envelope:
         # Check if given states are part of this envelope
         for s in states:
             assert s in [self.fock, self.polarization]
+            if s is not None and s.measured:
+                raise ValueError("Given state has already been destroyed")
 
         from photon_weave.state.polarization import PolarizationLabel
 
